@@ -223,6 +223,25 @@ func buildSpecUnits(prop string, rtl bool) func(tier string, seed int) []Unit {
 				us = append(us, unitsFor(prop, "spec", p, o, "", mn, nil, true)...)
 			}
 		}
+		// five runes for the shapes that need them: a leading capture with a loop that is referenced later
+		// (a a b a b), literal pieces that only become adjacent during tree reduction (right-to-left merge order)
+		for _, t := range []string{`(a*b)\1`, `(\w*b)\1`, `(?<x>a*b)c\k<x>`, `(a+b)\1`, `(?:ab)cde`, `ab\.cd`, `(?:ab)(?:cd)e`, `a(?:bc)de`, `(?:abc)de`, `ab(?:c)de`} {
+			o := 0
+			if rtl {
+				o = patterns.OptRTL
+			}
+			p := patterns.FromText(t, 0, "shape:deep5")
+			if !inC01Fragment(p, o) {
+				continue
+			}
+			all := unitsFor(prop, "spec", p, o, "", maxN+2, nil, true)
+			for _, u := range all {
+				if n, _ := strconv.Atoi(u.Params["n"]); n > maxN {
+					u.Params["fixstart"] = "1"
+					us = append(us, u)
+				}
+			}
+		}
 		return us
 	}
 }
@@ -696,6 +715,9 @@ func groupPatterns(tier string) []string {
 		`(?n:(a)(?<x>b))(?<x>c)(a)`, `(a)(?n)(b)(?<y>c)(?-n)(a)`, `(?n:(?<y>a)|(b))(c)`, `(?-n:(a))(?<x>b)`, `(?n:(?-n:(a))(b))(c)`} {
 		add(s)
 	}
+	// more than nine groups (two-digit references)
+	add(`()()()()()()()()()(a)(b)?`)
+	add(`(?<k>a)()()()()()()()()()(b)?`)
 	for _, s := range out {
 		groupPatternsAllModes[s] = true // the hand-written ones above run under every mode in both tiers
 	}
@@ -865,7 +887,7 @@ func init() {
 			return us
 		},
 		Rule:      "For each (group-mix pattern, mode in {default, MaintainCaptureOrder, RE2, ExplicitCapture, ECMAScript}, n): the expected numbering is computed from an independent parse by the documented rule; GetGroupNumbers/Names, both look-ups and unknown look-ups are asserted (concrete); with n symbolic runes, on every feasible path the order and names of Match.Groups, GroupByName/Number, and equality of the pattern followed by \\k<name> vs \\<number> are asserted.",
-		Witnesses: []string{"match", "nomatch", "backref-leg", "spec-leg", "end"},
+		Witnesses: []string{"match", "nomatch", "backref-leg", "spec-leg", "replacement-leg", "end"},
 	})
 }
 
@@ -1241,7 +1263,7 @@ func init() {
 			if tier == "thorough" {
 				nSeeds, perSeed = 300, 3
 			}
-			handSeeds := []string{`a(b)c`, `[a-c]+`, `(?<n>a)\k<n>`, `a{2,3}?`, `(?i)x|y`, `\p{Lu}\d`, `(?(1)a|b)`, `(?<=a)b`, `[a-z-[aeiou]]`, `A\x41\cA`, `(?<o>a)(?<-o>b)`, `a|b|`, `(?#c)a`, `\bfoo\b`, `^$`, `(a)*?`, `\1(a)`, `[[:alpha:]]`, `(?x) a # c`, `\Ga\Z`}
+			handSeeds := []string{`a(b)c`, `[a-c]+`, `(?<n>a)\k<n>`, `a{2,3}?`, `(?i)x|y`, `\p{Lu}\d`, `(a)(?(1)b|c)`, `(?<=a)b`, `[a-z-[aeiou]]`, `A\x41\cA`, `(?<o>a)(?<-o>b)`, `a|b|`, `(?#c)a`, `\bfoo\b`, `^$`, `(a)*?`, `\1(a)`, `[[:alpha:]]`, `(?x) a # c`, `\Ga\Z`}
 			if tier != "thorough" {
 				// a symbolic literal inside a Boyer-Moore prefix costs minutes (table writes through a symbolic index): thorough only
 				handSeeds = handSeeds[1:15]
@@ -1262,6 +1284,15 @@ func init() {
 					}
 					us = append(us, Unit{ID: fmt.Sprintf("C10/mutate/%q/p%d/o%d", sd, pos, o), Harness: "mutate", Domain: "full", StepBudget: 80_000_000, PathBudget: 40000, Params: params})
 				}
+			}
+			// numbers that overflow: hex escapes, repeat counts, group numbers and back-references with more digits
+			// than an int holds (one digit symbolic)
+			for oi, sd := range []string{`\x{FFFFFFFFFFFFFFFF}`, `a\x{10000000000000041}`, `[\x{FFFFFFFFFFFFFFFF}]`, `a{2147483648}`, `a{99999999999999999999}`, `a{1,99999999999999999999}`, `(?<99999999999999999999>a)`,
+				`(a)\99999999999999999999`, `\u{FFFFFFFFFFFFFFFFF}`, `\k<99999999999999999999>`, `(?(99999999999999999999)a|b)`, `\x{110000}`, `\777\400`} {
+				pos := strings.LastIndexAny(sd, "F90") 
+				o := []int{0, patterns.OptI, patterns.OptE | 1024, patterns.OptRE2, patterns.OptRTL}[oi%5]
+				us = append(us, Unit{ID: fmt.Sprintf("C10/overflow/%q/p%d/o%d", sd, pos, o), Harness: "mutate", Domain: "full", StepBudget: 80_000_000, PathBudget: 40000,
+					Params: map[string]string{"pattern": sd, "positions": itoa(pos), "options": itoa(o), "texts": ",ab", "symtext": "0", "key_extra": "overflow", "copts": "b"}})
 			}
 			// short arbitrary patterns: one fully symbolic byte, alone and next to interesting neighbours
 			for _, ctx := range []string{"_", "_a", "a_", "(_)", "[_]", `\_`, "a{_}", "(?_)", "a_b", "[a-_]", `\p{_}`, "(?<_>a)", "$_"} {
